@@ -12,6 +12,8 @@
   * `loop_fuel_agree`  : two budgets that both suffice give the same result.
   * `fetches_fuel_mono`: the fetch trace of a run that stopped by itself is final too.
   * `ref_run_fuel_mono`: the same for the reference machine's run (through `run_eq_ref`).
+  * `loop_fuel_split`  : a run still going after `a` steps, continued for `b` steps from where it
+                         is, is the run of `a + b` steps — the budget cuts the one run, nothing else.
 -/
 import Lace.Props.C03
 namespace Lace.C03
@@ -86,6 +88,34 @@ theorem ref_run_fuel_mono (so mi : Bool) (k n : Nat) (m : Machine) (w : World)
     Ref.run so mi (n + k) m w = Ref.run so mi n m w := by
   rw [← run_eq_ref, ← run_eq_ref] at *
   rw [loop_fuel_mono so mi k n m w ((stopped_toRef _).1 h)]
+
+theorem loop_fuel_split (so mi : Bool) (b : Nat) : ∀ (a : Nat) (m : Machine) (w : World)
+    (m' : Machine) (w' : World), loop so mi a m w = .fuel m' w' →
+    loop so mi (a + b) m w = loop so mi b m' w' := by
+  intro a
+  induction a with
+  | zero => intro m w m' w' h; simp only [loop, RunResult.fuel.injEq] at h; simp [h.1, h.2]
+  | succ a ih =>
+    intro m w m' w' h
+    rw [show a + 1 + b = (a + b) + 1 by omega]
+    simp only [loop] at h ⊢
+    by_cases hpc : (m.pc == 0xFFFF#16) = true
+    · simp [hpc] at h
+    · simp only [hpc] at h ⊢
+      cases hb : checkPcBounds m with
+      | lt => simp [hb] at h
+      | gt => simp [hb] at h
+      | eq =>
+        simp only [hb] at h ⊢
+        by_cases ho : m.pc.toNat + 1 ≥ 65536
+        · simp [ho] at h
+        · simp only [ho] at h ⊢
+          cases he : VM.execute so mi (m.read m.pc) (m.setPC (m.pc + 1)) w with
+          | ok m1 w1 =>
+            simp only [he] at h ⊢
+            simpa using ih _ _ _ _ (by simpa using h)
+          | exit c w1 => simp only [he] at h; exact absurd h (by simp)
+          | panic s => simp only [he] at h; exact absurd h (by simp)
 
 /-- Non-vacuity: a machine whose PC is xFFFF stops at once, with any budget. -/
 example (so mi : Bool) (m : Machine) (w : World) (h : m.pc = 0xFFFF#16) (n : Nat) :
